@@ -146,13 +146,15 @@ end partition
 batch size, also 0) and every view, the payloads of one flush concatenate to exactly the records /
 lines of the view, in order: nothing is lost or repeated at a batch boundary. -/
 theorem C17_batches_partition (c : Cfg) (view : List Series) :
-    (slackBatches flushSlack c.batch (groups c view) []).flatten = expand c view ∧          -- datadog, newrelic
+    (slackBatches flushSlack c.batch (groups c view) []).flatten = expand c view ∧          -- datadog
+    (slackBatches nrFlushSlack c.batch (groups c view) []).flatten = expand c view ∧        -- newrelic
     (countBatches c.batch ((groups c view).filter (fun g => !g.isEmpty)) []).flatten.flatten = expand c view ∧  -- influxdb (lines)
     (otlpBatches c.batch (expand c view) []).flatten = expand c view ∧                       -- otlp
     (cwChunks (expand c view)).flatten = expand c view ∧                                      -- cloudwatch
     (relayDatagrams c view).flatten = relayAll c view := by                                   -- statsdaemon
-  refine ⟨?_, ?_, ?_, ?_, ?_⟩
+  refine ⟨?_, ?_, ?_, ?_, ?_, ?_⟩
   · rw [C17_batches_partition_datadog]; rfl
+  · rw [flatten_slackBatches]; rfl
   · rw [C17_batches_partition_influxdb]
     unfold expand
     generalize groups c view = gs
@@ -371,9 +373,9 @@ example : unescNL (escNL "a\\\n".toList) = "a\\\n".toList ∧ unescNL (escNL "a\
 
 
 /-- **C17_source_constants.**  The batching constants the model reads from the source on every run are the ones
-the property and BACKENDS.md speak about: CloudWatch chunks hold at most 20 data, and Datadog and
-New Relic use the same slack. -/
+the property and BACKENDS.md speak about: CloudWatch chunks hold at most 20 data and at least one.  (The
+Datadog / New Relic slack may take any value: `C17_batches_partition_datadog` holds for every slack.) -/
 theorem C17_source_constants :
-    cwLimit ≤ 20 ∧ 0 < cwLimit ∧ Facts.newrelicFlushSlack = flushSlack := by decide
+    cwLimit ≤ 20 ∧ 0 < cwLimit := by decide
 
 end Gsd
